@@ -271,7 +271,7 @@ func drawEnv(rng *prng.R, c *tcase, blobLen int64, totalOps, maxG int) *envSpec 
 	default: // defaults (10/10)
 	}
 	dc.SyncAdd = rng.Bool()
-	if cs > 0 && blobLen/cs > 1500 {
+	if cs > 0 && blobLen/cs > 300 {
 		// Harness limit: with SyncAdd=false every committed cache entry is written by its own
 		// goroutine; thousands of them blocked in file system calls need thousands of OS
 		// threads and the child dies in pthread_create (RLIMIT_AS / thread limits).
